@@ -728,6 +728,30 @@ def history(run, rec, alpha_s, t_plot, da_plot, dr_plot, DA, DR):
         except Exception as e:  # noqa: BLE001
             run.violation({"site": "alpha_s", "part": "recovery", "config": cfg, "wrong": "exception:" + exc_class(e)}, {"message": str(e)[:200]})
 
+    # a reference WITH hysteresis (desorption branch above the adsorption branch, not an affine image of it) and every
+    # combination of sample branch x reference branch: the sample branch is exactly linear in the reference branch named
+    # by branch_ref (and not in the other one), so slope and intercept are recovered only if the reference curve AND the
+    # reducing point are both read from branch_ref and the sample from branch
+    refd = [refs[k - 1] + Fraction(k * (20 - k), 9) for k in range(1, 17)]
+    rd = numpy.array([float(x) for x in refd])
+    ref3 = point_isotherm(pp, numpy.concatenate([rl, rd[::-1][1:]]), adsorbate="N2", temperature=77.355, loading_unit="mmol")
+    curve = {"ads": (rl, apt), "des": (rd, refd[7])}
+    other = {"ads": "des", "des": "ads"}
+    for br in ("ads", "des"):
+        for brf in ("ads", "des"):
+            cfg = "sample branch '%s' against reference branch '%s' of a reference with hysteresis" % (br, brf)
+            good = float(s) * curve[brf][0] / float(curve[brf][1]) + float(ic)
+            decoy = float(s) * curve[other[brf]][0] / float(curve[other[brf]][1]) + float(ic) + 0.5
+            a_, d_ = (good, decoy) if br == "ads" else (decoy, good)
+            smp3 = point_isotherm(numpy.concatenate([p[:-1], p[:-1][::-1][1:]]), numpy.concatenate([a_[:-1], d_[:-1][::-1][1:]]),
+                                  adsorbate="N2", temperature=77.355, loading_unit="mmol")
+            q1 = {"m": "as", "s": renc(s), "i": renc(ic), "aref": [2469, 10], "apt": renc(curve[brf][1]), "mm": [1, 1], "rho": [1, 1]}
+            try:
+                for d in alpha_s(smp3, ref3, reference_area=246.9, reducing_pressure=0.4, branch=br, branch_ref=brf, t_limits=(0.0, 1e9))["results"]:
+                    rec.add("alpha_s", cfg, q1, dict(slope=d["slope"], intercept=d["intercept"], area=d["area"], adsorbed_volume=d["adsorbed_volume"] / vm))
+            except Exception as e:  # noqa: BLE001
+                run.violation({"site": "alpha_s", "part": "recovery", "config": cfg, "wrong": "exception:" + exc_class(e)}, {"message": str(e)[:200]})
+
 
 def replay(path):
     """./check C14 --replay replays/C14-....json : re-execute a recorded window/section case on the current
